@@ -88,6 +88,13 @@ def main():
                 t = parse(sql, d)
                 res = lineage(None, t, schema=schema_for(d), dialect=d or None)
                 r = "; ".join(f"{k}<-" + ",".join(sorted({n.name for n in node.walk() if not n.downstream})) for k, node in res.items())
+            elif op == "annmix":
+                from sqlglot.optimizer.annotate_types import annotate_types
+                from sqlglot.optimizer.qualify import qualify
+
+                ms = MappingSchema(work["mix_schema"], dialect=d or None)
+                t = annotate_types(qualify(parse(sql, d), schema=ms, dialect=d or None), schema=ms, dialect=d or None)
+                r = "; ".join(f"{s.alias_or_name}:{s.type.sql() if s.type else None}" for s in t.selects)
             elif op == "schema":
                 mapping = work["mappings"][it["m"]]
                 udfs = work["udfs"][it["m"]]
